@@ -185,7 +185,7 @@ CLAIMED = {
     ),
     "C18": (
         "Coq proof (lock discipline for every fault position and every history of transfers by case analysis / induction; version bookkeeping of the reassembly by induction) + correspondence and fault-injection oracle on real Schedule/Zone objects with a scripted controller",
-        "13 theorems in coq/props/C18.v about coq/model/M_Transfer.v and M_SchedCache.v (THE ZONE'S OWN MEMORY of its schedule -- _full_schedule / _sched_ver / _global_ver and the system's cached change counter against the controller's schedule and counter, under fetches and WRITES that fail at any exchange (before the controller has the whole set; after it has committed, the last reply lost; at the version query that follows), changes by others and overheard counters: in every reachable state the readings never run ahead of the controller and whenever the zone's version says 'current' what it remembers IS the controller's schedule (C18_cache_invariant), so a forced fetch that returns, returns the controller's schedule (C18_forced_fetch_is_current); remembering the new schedule BEFORE sending it is refuted with the three-step history (C18_early_assignment_refuted); tied to the code state by state: random histories of fetches / forced fetches / writes / changes with one exchange failing anywhere (raising, never answering, its reply lost after the controller acted) on real Schedule objects, the remembered schedule, both version readings, the controller's schedule and counter compared with the model after every step; OVERHEARD traffic, Schedule._handle_msg: acknowledgements of schedule writes -- this gateway's or "
+        "17 theorems in coq/props/C18.v about coq/model/M_Transfer.v, M_SchedCache.v and M_LockWaiters.v (SEVERAL zones' transfers at once around the system-wide lock: for EVERY interleaving of starts, polls, fragment exchanges and ends -- completions, failures, callers giving up while WAITING for the lock or while holding it -- every fragment is exchanged under its own zone's lock, at most one transfer holds, and a transfer that ends while waiting changes neither the lock nor any other transfer: C18_exchanges_under_own_lock, C18_one_holder, C18_waiter_ending_releases_nothing; the slip 'obtain the lock inside the try' refuted with a witness; tied to the code by an AST obligation on both routines -- `await _obtain_lock` right before the `try ... finally _release_lock` -- and by replaying the lock events of every episode in the model, the lock after EACH event being the real tcs.zone_lock_idx; THE ZONE'S OWN MEMORY of its schedule -- _full_schedule / _sched_ver / _global_ver and the system's cached change counter against the controller's schedule and counter, under fetches and WRITES that fail at any exchange (before the controller has the whole set; after it has committed, the last reply lost; at the version query that follows), changes by others and overheard counters: in every reachable state the readings never run ahead of the controller and whenever the zone's version says 'current' what it remembers IS the controller's schedule (C18_cache_invariant), so a forced fetch that returns, returns the controller's schedule (C18_forced_fetch_is_current); remembering the new schedule BEFORE sending it is refuted with the three-step history (C18_early_assignment_refuted); tied to the code state by state: random histories of fetches / forced fetches / writes / changes with one exchange failing anywhere (raising, never answering, its reply lost after the controller acted) on real Schedule objects, the remembered schedule, both version readings, the controller's schedule and counter compared with the model after every step; OVERHEARD traffic, Schedule._handle_msg: acknowledgements of schedule writes -- this gateway's or "
         "another's -- and fragments arriving while the zone's own transfer holds the lock change nothing; hearing ANY traffic is feeding the reassembly exactly the "
         "fragments among it, so nothing but a fragment ever enters the set (fix 920e60e; tied to the real _handle_msg on real RP / I 0404 messages under the three lock "
         "states, and anchored in the source by AST); = _obtain_lock/_release_lock around Schedule._get_schedule / "
@@ -195,7 +195,7 @@ CLAIMED = {
         "that zlib's checksum rejects a mixed set); an UNDISTURBED fetch (the loop of _get_schedule against a controller holding one "
         "version) ends with that version within 2*total exchanges from ANY stale payload set, so nothing a failed, abandoned or "
         "overtaken transfer leaves behind can stop a later one; the pre-repair lock leak is the refuted witness. PARTIAL: 'always ends' "
-        "for DISTURBED transfers rests on the caller's timeout (asyncio.wait_for), which is not in the model -- decided by the oracle; a WAITER that gives up while another zone's transfer holds the lock is oracle-only too (concurrent fetches and writes of three zones, the middle one abandoned while waiting: at every fragment exchange the lock is held by that fragment's zone). "
+        "for DISTURBED transfers rests on the caller's timeout (asyncio.wait_for), which is not in the model -- decided by the oracle; a WAITER that gives up while another zone's transfer holds the lock is in M_LockWaiters (above) and in the oracle (concurrent fetches and writes of three zones, the middle one abandoned while waiting: at every fragment exchange the lock is held by that fragment's zone). "
         "Tie: vfeed / fetch of the model are compared with the real _update_payload_set / _get_schedule on fragments of 5-7 versions "
         "of one zone's schedule (same and different fragment counts, one-fragment sets; slots, assembled version, number of exchanges). Oracle: a replay gateway's real zones, gwy.async_send_cmd "
         "replaced by a scripted controller (change counter, per-zone fragment sets), ONE fault (raise / never answer / schedule changed "
